@@ -59,3 +59,36 @@ Theorem uncertain_window_kept : forall l now now' t i,
   In i (uncertain_saved l now).
 Proof. exact Proofs.uncertain_window_kept. Qed.
 Print Assumptions uncertain_window_kept.
+
+(* resume_sound, end to end on the model (save record -> crash / perturbations -> load -> check).
+   The one hypothesis [trust] spells out what the code relies on: a piece completed by the previous
+   session, all of whose files exist with the saved size and either were saved as ~3 or still carry
+   the saved mtime, and which the uncertain list does not name, is still valid on disk (i.e. pieces
+   were verified when set; a rewrite changes size or mtime; a file saved while active (~3) is not
+   rewritten afterwards — the recorded known finding; crash losses lie in the uncertain window). *)
+From LTV.C10 Require Import ProofsSound.
+Theorem resume_sound : forall n ld fs ms bits_s flags0 u ts valid r,
+  r_map r = true -> r_files r = Some (map (fun m => FMap (MVal m)) ms) -> length ms = length fs ->
+  r_unc r = Some u -> r_unc_ts r = Some ts -> (ts < ld)%Z ->
+  load_bitfield n (opened n (length fs)) (r_bits r) = Some (mkL (Some bits_s) (repeat false n) flags0) ->
+  length valid = n ->
+  snd (load n ld fs (opened n (length fs)) r) = Loaded ->
+  (forall i, i < n -> nth i bits_s false = true ->
+     Forall2 (fun f m => fi_pad f = false -> covers f i -> kept f m) fs ms ->
+     ~ In i (unc_indices u (length u)) -> nth i valid false = true) ->
+  forall i, i < n ->
+    nth i (check (fst (load n ld fs (opened n (length fs)) r)) valid) false = true -> nth i valid false = true.
+Proof. exact ProofsSound.resume_sound. Qed.
+Print Assumptions resume_sound.
+
+(* two files of 4 pieces each, all saved complete; the second was rewritten (mtime 507 instead of 500)
+   and piece 2 was lost in the crash but is named by the uncertain list: the load is accepted, pieces
+   2 and 4..7 are rechecked, and the final bitfield is exactly the valid pieces *)
+Example resume_sound_nonvacuous :
+  let fs := [mkFI 0 4 false 8192%N (Some (8192%N, 500%Z)); mkFI 4 8 false 8192%N (Some (8192%N, 507%Z))] in
+  let r := mkR true (Some [FMap (MVal 500%Z); FMap (MVal 500%Z)]) (BVal 8) (Some [0;0;0;2]%N) (Some 5%Z) in
+  let valid := [true; true; false; true; false; false; true; false] in
+  snd (load 8 10%Z fs (opened 8 2) r) = Loaded /\
+  l_ranges (fst (load 8 10%Z fs (opened 8 2) r)) = [false; false; true; false; true; true; true; true] /\
+  check (fst (load 8 10%Z fs (opened 8 2) r)) valid = valid.
+Proof. vm_compute. repeat split; reflexivity. Qed.
